@@ -235,7 +235,7 @@ def stepUn (ps : PState) (op a : String) (rest : List String) : PState × StepOu
   | none => (ps.failVar, .fields "r=skip")
   | some (aId, x) =>
     if op == "apply" || op == "applyerr" then
-      applyEng ps aId po (engMap ps.st (unaryFn op x.dt params) mapTypes x po.o (op == "applyerr")) else
+      applyEng ps aId po (engMap ps.st (unaryFn op x.dt params) mapTypes x po.o) else
     match unaryClasses.find? (·.1 == op) with
     | none => (ps.failVar, .fields "r=badprog")
     | some (_, tc, kt) => applyEng ps aId po (engUnary ps.st (unaryFn op x.dt params) tc kt (op != "clamp") x po.o)
